@@ -141,6 +141,11 @@ Definition subc (x : slc) (k : Z) : slc := add x (constv (- k)).    (* x - k  = 
 Definition rsubc (k : Z) (x : slc) : slc := add (neg x) (constv k). (* k - x  = (-x).__radd__(k) = (-x) + ConstVal(k) *)
 Definition recast_modp (x : slc) : slc :=            (* x.value %= modulus (in place) *)
   {| sval := VModP (sval x); wire := wire x; oid := oid x; good := good_modp p _ _ (good x) |}.
+(* x.value %= modulus where the model keeps the wire reduced mod p and writes the value as the wire itself (used where
+   unreduced coefficients and nested value expressions would explode: Poseidon's linear layers); extensionally the same
+   value as [recast_modp] because x is coherent *)
+Definition relin_modp (x : slc) : slc :=
+  {| sval := VModP (VLin (lc_reduce p (wire x))); wire := lc_reduce p (wire x); oid := oid x; good := good_relin p _ (proj1 (good x)) |}.
 Definition zero_anon : slc := {| sval := VConst 0; wire := []; oid := 0; good := good_zero p |}.
 
 Definition emit (a b y : slc) : G unit := emitc (CEmit a b y).       (* add_constraint_unsafe *)
